@@ -33,10 +33,12 @@ func init() {
 			ruleJ1(c, inj, adj)
 			ruleJ2(c, inj, pkgInjector, "inj")
 			ruleJ2(c, adj, pkgAdjuster, "adj")
+			ruleJ5(c, inj, pkgInjector, "inj")
+			ruleJ5(c, adj, pkgAdjuster, "adj")
 			ruleJ3(c, adj)
 			ruleJ4(c, inj)
 		},
-		explanation: "Decides the lookup and all-or-nothing structure of the two sample plugins (analysed in their own modules): the injector's candidate annotation keys are key/container.<name>, key/pod, key in that order and the adjuster's is key/container.<name> only, the name being the container's own name; the annotation map is only ever indexed with these exact keys (never ranged over or prefix-matched) and the first hit wins; every return carrying a non-nil error returns nil for the adjustment and the updates, and every error of a helper is returned by its caller up to CreateContainer; an rlimit is emitted only on the branch where hard >= soft, with the type that passed the lookup in the table of valid names after upper-casing and prefix-trimming, re-prefixed; the annotation-to-NRI conversions cover every field of the annotation structs under the same name, and their optional-constructor calls pass accepted types. Errors of helpers called through function values are propagated at once as well.",
+		explanation: "Decides the lookup and all-or-nothing structure of the two sample plugins (analysed in their own modules): the injector's candidate annotation keys are key/container.<name>, key/pod, key in that order and the adjuster's is key/container.<name> only, the name being the container's own name; the annotation map is only ever indexed with these exact keys (never ranged over or prefix-matched) and the first hit wins; every return carrying a non-nil error returns nil for the adjustment and the updates, and every error of a helper is returned by its caller up to CreateContainer; an rlimit is emitted only on the branch where hard >= soft, with the type that passed the lookup in the table of valid names after upper-casing and prefix-trimming, re-prefixed; the annotation-to-NRI conversions cover every field of the annotation structs under the same name, and their optional-constructor calls pass accepted types. Errors of helpers called through function values are propagated at once as well. Nothing but the hard/soft test controls the emission of an rlimit; the plugins keep no package-level state between requests.",
 		notDecided: []string{
 			"YAML decoding",
 			"the end-to-end behaviour through the stub and the runtime",
@@ -329,6 +331,31 @@ func ruleJ3(c *Ctx, adj *Module) {
 				}
 			}
 		}
+		// every entry that passes that test is emitted: nothing else in the loop decides about it
+		if bad == "" {
+			for _, cd := range controls(add.Block()) {
+				if cd.If == nil || !canReach(add.Block(), cd.If.Block()) {
+					continue // outside the loop
+				}
+				n := normCond(cd)
+				if bo, ok := n.V.(*ssa.BinOp); ok {
+					x, y := adj.ap(bo.X), adj.ap(bo.Y)
+					hs := (x.PathString() == ha.PathString() && y.PathString() == sa.PathString()) || (x.PathString() == sa.PathString() && y.PathString() == ha.PathString())
+					if hs {
+						continue
+					}
+					if _, isLen := isBuiltinCall(bo.Y, "len"); isLen && bo.Op == token.LSS {
+						continue // the loop's own i < len(xs)
+					}
+				}
+				if ex, ok := n.V.(*ssa.Extract); ok {
+					if _, isNext := ex.Tuple.(*ssa.Next); isNext {
+						continue
+					}
+				}
+				bad = "the emission additionally depends on " + n.V.String() + ": entries the annotation describes (for example a limit of 0, which is a real setting) are dropped while the request succeeds"
+			}
+		}
 		if bad == "" {
 			if !(strings.HasSuffix(ta.PathString(), "Type") && strings.HasSuffix(ha.PathString(), "Hard") && strings.HasSuffix(sa.PathString(), "Soft") && ta.Root == ha.Root && ha.Root == sa.Root) {
 				bad = "AddRlimit is not called with (Type, Hard, Soft) of one entry"
@@ -500,4 +527,39 @@ func ruleJ4(c *Ctx, inj *Module) {
 			c.addAt("J4", fmt.Sprintf("ctor/%s/%s#%d", f.Name(), g.Name(), k), posIn(c, inj, ci.Pos()), boolStatus(okT), fmt.Sprintf("%s in %s gets an argument type it accepts", g.Name(), f.Name()), "the argument type is not a case of the constructor's type switch: the value is silently dropped")
 		}
 	}
+}
+
+// ruleJ5: the sample plugins keep no state between requests.
+func ruleJ5(c *Ctx, m *Module, pkg, tag string) {
+	c.rule("J5", "no state between requests: apart from main and the package initialiser, no function of the sample plugins assigns a package-level variable or updates a package-level map — what a container gets depends on its own request only, never on the containers handled before", 2)
+	bad := ""
+	var pos token.Pos
+	for _, f := range m.funcsInPkg(pkg) {
+		if f.Name() == "main" || f.Name() == "init" || f.Synthetic != "" {
+			continue
+		}
+		root := f
+		for root.Parent() != nil {
+			root = root.Parent()
+		}
+		if root.Name() == "main" || root.Name() == "init" {
+			continue
+		}
+		for _, b := range f.Blocks {
+			for _, in := range b.Instrs {
+				switch x := in.(type) {
+				case *ssa.Store:
+					if g, ok := m.ap(x.Addr).Root.(*ssa.Global); ok {
+						bad, pos = fmt.Sprintf("%s assigns the package-level variable %s", funcKey(f), g.Name()), x.Pos()
+					}
+				case *ssa.MapUpdate:
+					if g, ok := m.ap(x.Map).Root.(*ssa.Global); ok {
+						bad, pos = fmt.Sprintf("%s updates the package-level map %s", funcKey(f), g.Name()), x.Pos()
+					}
+				}
+			}
+		}
+	}
+	c.addAt("J5", tag+"/stateless", posIn(c, m, pos), boolStatus(bad == ""), "the plugin keeps no package-level state across requests",
+		bad+suffixIf(bad != "", ": a later container's adjustment then depends on an earlier container's request (for example lookup keys cached for the first container are used for all)"))
 }
